@@ -9,6 +9,7 @@ import OFV.Proofs.C19LCU
 import OFV.Proofs.C19Qrom
 import OFV.Proofs.C19QR
 import OFV.Proofs.C19Cost
+import OFV.Proofs.C19LambdaFinal
 
 namespace OFV.C19
 open OFV.Model.C19 OFV.Spec.C19
@@ -123,5 +124,64 @@ theorem iters_monotone (lam lam' dE dE' : Rat) (a b : Nat) (ha : iters lam dE = 
 example : iters 2 1 = some 4 := OFV.Proofs.C19C.iters_two_one
 
 example : (4 : Nat) ≤ 4 := iters_monotone 2 2 1 1 4 4 OFV.Proofs.C19C.iters_two_one OFV.Proofs.C19C.iters_two_one (le_refl _) (le_refl _)
+
+/-! ### `lambda_norm` and the Jordan-Wigner image -/
+
+/-- **`lambda_norm` is the 1-norm of the non-identity Jordan-Wigner coefficients** — every size `n`, every real
+symmetric `T = one_body` and `V = two_body` (passed to the Model of `jordan_wigner(DiagonalCoulombHamiltonian)`,
+`Model.C04.jwDCH`, as the row-major tensors `one`, `two`), every (complex) constant.  On every exact run of the
+transform (`jwDCHOk`: no `+=` discards a non-zero value, evaluated by the driver on the generated inputs):
+
+* the Model of `lambda_norm` (the double loop with `z_vector`) equals the sum of `|c|` over the non-identity Pauli
+  strings of the image (`Z_j`, `Z_a Z_b`, `X_a Z…Z X_b`, `Y_a Z…Z Y_b`; all other strings have coefficient 0);
+* all those coefficients are real;
+* the image acts on every basis state like the Spec operator `const + Σ T_pq a†_p a_q + Σ V_pq n_p n_q`
+  (`C04.jw_dch_sound`, restated here for the same hypotheses).
+
+Not proved: that the coefficient list of the image is THE Pauli decomposition in the sense of `Spec.C19.jwOneNorm`
+(orthogonality of Pauli strings under the trace); the harness oracle checks that equality on every generated input. -/
+theorem lambda_norm_spec (tol : Rat) (n : Nat) (const : GQ) (one two : List GQ) (T V : List (List Rat))
+    (hn : T.length = n)
+    (hT : ∀ p q, p < n → q < n → Model.C04.get1 n one p q = Model.C04.rl (mat T p q))
+    (hV : ∀ p q, p < n → q < n → Model.C04.get1 n two p q = Model.C04.rl (mat V p q))
+    (symT : ∀ p q, p < n → q < n → mat T q p = mat T p q)
+    (symV : ∀ p q, p < n → q < n → mat V q p = mat V p q)
+    (hok : Model.C04.jwDCHOk tol n const one two = true) :
+    lambdaNorm T V = OFV.C19Jw.pauliNormNonId (Model.C04.jwDCH tol n const one two)
+    ∧ (∀ tc ∈ Model.C04.jwDCH tol n const one two, tc.1 ≠ [] → tc.2.im = 0)
+    ∧ (∀ m x : Nat, Spec.GV.coeff (Spec.applyOp .qubit (Model.C04.jwDCH tol n const one two) [m]) [x]
+        = Spec.GV.coeff (Spec.applyOp .fermion (Spec.C04.dchOp n const one two) [m]) [x]) := by
+  refine ⟨OFV.C19Jw.lambdaNorm_eq_pauliNorm tol n const one two T V hn hT hV symT symV hok,
+    fun tc htc hne => OFV.C19Jw.jwDCH_real tol n const one two T V hT hV hok tc htc hne, fun m x => ?_⟩
+  refine OFV.Sem.jwDCH_sound tol n const one two ?_ ?_ hok m x
+  · intro p q hp hq
+    rw [hT q p hq hp, hT p q hp hq, symT p q hp hq]; rfl
+  · intro p q hp hq
+    rw [hV q p hq hp, hV p q hp hq, symV p q hp hq]
+
+/-- the hypotheses of `lambda_norm_spec` hold for a concrete 3-orbital Hamiltonian and both sides are `13/4` -/
+example :
+    let T : List (List Rat) := [[1, mkRat 1 2, 0], [mkRat 1 2, -2, -1], [0, -1, 3]]
+    let V : List (List Rat) := [[0, mkRat 1 2, -1], [mkRat 1 2, 0, 0], [-1, 0, 0]]
+    let one : List GQ := [⟨1, 0⟩, ⟨mkRat 1 2, 0⟩, 0, ⟨mkRat 1 2, 0⟩, ⟨-2, 0⟩, ⟨-1, 0⟩, 0, ⟨-1, 0⟩, ⟨3, 0⟩]
+    let two : List GQ := [0, ⟨mkRat 1 2, 0⟩, ⟨-1, 0⟩, ⟨mkRat 1 2, 0⟩, 0, 0, ⟨-1, 0⟩, 0, 0]
+    Model.C04.jwDCHOk Generated.eqTolerance 3 ⟨mkRat 3 4, 0⟩ one two = true
+      ∧ lambdaNorm T V = OFV.C19Jw.pauliNormNonId (Model.C04.jwDCH Generated.eqTolerance 3 ⟨mkRat 3 4, 0⟩ one two) := by
+  decide +kernel
+
+/-- `lambda_norm_spec` in the form the driver evaluates (`c19.spec.dch_pauli_norm`): the matrices are flattened by
+`Spec.C19.flatReal`, the threshold is the extracted `EQ_TOLERANCE`; the driver reports `jwDCHOk` and the 1-norm
+`pauliListNorm` of the Model's Jordan-Wigner image for every generated real symmetric Hamiltonian, and the harness
+compares the latter with the implementation's `lambda_norm`. -/
+theorem lambda_norm_spec_flat (const : GQ) (T V : List (List Rat))
+    (symT : ∀ p q, p < T.length → q < T.length → mat T q p = mat T p q)
+    (symV : ∀ p q, p < T.length → q < T.length → mat V q p = mat V p q)
+    (hok : Model.C04.jwDCHOk Generated.eqTolerance T.length const (flatReal T.length T) (flatReal T.length V) = true) :
+    lambdaNorm T V
+      = pauliListNorm (Model.C04.jwDCH Generated.eqTolerance T.length const (flatReal T.length T) (flatReal T.length V)) false := by
+  rw [← OFV.C19Jw.pauliNormNonId_eq]
+  exact (lambda_norm_spec Generated.eqTolerance T.length const _ _ T V rfl
+    (fun p q hp hq => OFV.C19Jw.get1_flatReal T.length T p q hp hq) (fun p q hp hq => OFV.C19Jw.get1_flatReal T.length V p q hp hq)
+    symT symV hok).1
 
 end OFV.C19
